@@ -610,6 +610,22 @@ where
         Ok(self)
     }
 
+    /// Verification hook: the membership object of the node constructed by `build()`.
+    /// Exists only with `--cfg d_engine_verif`.
+    #[cfg(d_engine_verif)]
+    pub fn verif_built_membership(&self) -> Option<Arc<MOF<RaftTypeConfig<SE, SM>>>> {
+        self.node.as_ref().map(|n| n.membership.clone())
+    }
+
+    /// Verification hook: (role, current term) of the node constructed by `build()`.
+    /// Exists only with `--cfg d_engine_verif`.
+    #[cfg(d_engine_verif)]
+    pub async fn verif_built_role(&self) -> Option<(i32, u64)> {
+        let node = self.node.as_ref()?;
+        let raft = node.raft_core.lock().await;
+        Some((raft.role.as_i32(), raft.role.current_term()))
+    }
+
     /// Spawn state machine commit listener as background task.
     ///
     /// This method is called during node build() to start the commit handler thread.
